@@ -343,7 +343,7 @@ def run_check(prop, tier, seed, repo, tmp, replay, scale, t0):
     os.makedirs(os.path.join(VERIF, "replays"), exist_ok=True)
     if not replay:
         for fn in os.listdir(os.path.join(VERIF, "replays")):
-            if fn.startswith(prop + "-"):
+            if fn.startswith(prop + "-") and fn.endswith(".json"):
                 os.unlink(os.path.join(VERIF, "replays", fn))
     printed = set()
     for key, desc, wit, step in new:
@@ -355,6 +355,9 @@ def run_check(prop, tier, seed, repo, tmp, replay, scale, t0):
         json.dump({"property": prop, "seed": seed, "tier": tier, "step": step,
                    "violation": {"key": key, "desc": desc, "witness": wit}}, open(path, "w"), indent=1, default=str)
         print(f"VIOLATION property={prop} replay={path}")
+        hist = os.path.join(VERIF, "replays", "history")
+        os.makedirs(hist, exist_ok=True)
+        shutil.copy(path, os.path.join(hist, f"{int(time.time())}-{os.path.basename(path)}"))
         print(f"  key={key}\n  {desc[:600]}")
     wall = time.time() - t0
     if evaluations == 0 and not new:
